@@ -16,6 +16,7 @@ import (
 	"errors"
 	"fmt"
 	"hash/crc32"
+	"math/bits"
 	"sort"
 )
 
@@ -83,8 +84,7 @@ func (c RCont) card() int {
 	return len(c.Vals)
 }
 
-func (c RCont) values() []uint32 {
-	var out []uint32
+func (c RCont) appendValues(out []uint32) []uint32 {
 	hi := uint32(c.Key) << 16
 	if c.Kind == "run" {
 		for _, r := range c.Runs {
@@ -214,10 +214,16 @@ func decodeRoaring(b []byte) (set []uint32, kinds []string, canon bool, err erro
 		return
 	}
 	keys, cards := make([]int, size), make([]int, size)
+	total := 0
 	for i := 0; i < size; i++ {
 		keys[i] = u16()
 		cards[i] = u16() + 1
+		total += cards[i]
 	}
+	if total > 4*len(b)+65536 {
+		total = 4*len(b) + 65536 // the header is not to be trusted with more
+	}
+	set = make([]uint32, 0, total)
 	canon = true
 	for i := 1; i < size; i++ {
 		if keys[i] <= keys[i-1] {
@@ -281,10 +287,7 @@ func decodeRoaring(b []byte) (set []uint32, kinds []string, canon bool, err erro
 			for w := 0; w < 1024; w++ {
 				x := binary.LittleEndian.Uint64(b[p+8*w:])
 				for x != 0 {
-					bit := 0
-					for x&(1<<uint(bit)) == 0 {
-						bit++
-					}
+					bit := bits.TrailingZeros64(x)
 					x &^= 1 << uint(bit)
 					set = append(set, hi|uint32(w*64+bit))
 					n++
